@@ -4,11 +4,17 @@ from props import aof_common
 THEOREMS = ["Slock.C07A.deadline_seconds", "Slock.C07A.deadline_seconds_saturated", "Slock.C07A.never_renews_seconds",
             "Slock.C07A.seconds_overflow_saturates", "Slock.C07A.deadline_minutes", "Slock.C07A.minutes_extends_by_60",
             "Slock.C07A.minutes_overflow_saturates", "Slock.C07A.deadline_ms_restarts_period", "Slock.C07A.deadline_ms_renewed",
-            "Slock.C07A.unlimited_unchanged"]
+            "Slock.C07A.unlimited_unchanged",
+            "Slock.C07J.recover_lock_new", "Slock.C07J.recover_relock", "Slock.C07J.recover_update", "Slock.C07J.recover_unlock_full",
+            "Slock.C07J.recover_unlock_partial", "Slock.C07J.recover_unlock_last", "Slock.C07J.recover_frame",
+            "Slock.C07J.recover_lock_unlock_identity", "Slock.C07J.recover_compositional", "Slock.C07J.partial_unlock_example",
+            "Slock.C07J.partial_unlock_as_full_example", "Slock.C07J.levels_with_update_flag_example"]
 FINISH = {"level": "proof", "assumptions": [
     "the conversions (Model/Aof.lean pushCommandTime, pushAge, writeRemaining, skippedAt, loadRemaining) are hand-written mirrors of AofChannel.Push, Aof.GetAofLockExpriedTime, the filter in LoadAofFile and Aof.GetLockCommandExpriedTime; tied by the aofdeadline differential (real Push -> real writer -> real LoadAofFile -> real GetLockCommandExpriedTime)",
     "engineDeadline mirrors LockManager.AddLock (lock.go 566-577); the harness computes the original deadline with the same formula (the engine's own expiry timing is C06's business)",
-    "times are below 2^61 seconds; the reload uses one clock value for the file filter and for the conversion"]}
+    "times are below 2^61 seconds; the reload uses one clock value for the file filter and for the conversion",
+    "journal/replay part: the restart mode is MONITOR-ONLY against the real code (seeded histories over 2-3 dbs through a real SLock + real Aof with real AofChannel goroutines on a virtual clock laid out so that the restart second equals the real clock; fresh SLock on a copy of the directory); its oracle is the reference replay recover (Slock.Aof.recover), whose Lean definition is diffed against the harness's Go copy on every journal (aofjournal lines) and about which the C07J algebra is proved; the refinement recover(journal) = persisted holds over the engine model is NOT proved (statement text in Properties/C07Journal.lean)",
+    "not generated: updates that move a hold between the millisecond wheel and the second wheel, the 'unlimited + Expried 0xffff' update, require-ack locks, size-triggered rotation in the middle of a history (loadRewriteAofFiles reads time.Now())"]}
 
 
 def classify(op, impl):
@@ -20,15 +26,22 @@ def classify(op, impl):
 
 def run(ctx):
     ctx.extract()
-    ctx.lake_build(["Slock.Properties.C07Arith"])
-    ctx.audit("Slock.Properties.C07Arith", THEOREMS)
+    ctx.lake_build(["Slock.Properties.C07Arith", "Slock.Properties.C07Journal"])
+    src_mod = "Slock.Properties.C07Arith\nimport Slock.Properties.C07Journal"
+    ctx.audit(src_mod, THEOREMS)
     if ctx.tier == "thorough":
         ctx.leanchecker("Slock.Properties.C07Arith")
+        ctx.leanchecker("Slock.Properties.C07Journal")
     exe = ctx.build_harness("server")
     if not exe:
         return
     n = 3000 if ctx.tier == "quick" else 60000
     seeds = [ctx.seed] if ctx.tier == "quick" else [ctx.seed + i for i in range(3)]
     aof_common.run_mode(ctx, exe, "aofdeadline", n, ["C07:"], classify, "deadline conversions vs real Push / LoadAofFile / GetLockCommandExpriedTime", seeds=seeds)
+    aof_common.run_mode(ctx, exe, "restart", 60 if ctx.tier == "quick" else 800, ["C07:"], None, "Slock.Aof.recover vs the harness's reference replay",
+                        seeds=seeds, diff_modes=["aofjournal"], stats_key="restart")
     ctx.cov["rule"] = ("random (unit flags, Expried incl. 1/59/60/61/1000/60000/65535, grant second, journal second within the hold's life, reload second incl. clock steps back); "
-                       "distinct = (unit, Expried bucket, skipped, restored 0, outage bucket)")
+                       "distinct = (unit, Expried bucket, skipped, restored 0, outage bucket). restart: 12-36 operations per history over 2-3 dbs x 1-2 keys x 3 LockIds "
+                       "(lock with persist-now / never-persist / default / percent journalling, units s/min/unlimited/ms, Count 0-2, Rcount 0-3, re-lock to depth 2-4, update flag 0x02, "
+                       "unlock Rcount 0-2, SET/INCR/APPEND values on lock and unlock, ticks 1-47 s), aof buffer 64/128/4096, journalling delay 0-2 s, outage 0/1/2/5/20/59/61/90 s; "
+                       "half of the cases run a real compaction first; coverage['distribution']['restart'] has the generated counts")
